@@ -25,7 +25,9 @@ def gen(rng, tier):
     cases = []
     for _ in range({"quick": 160, "search": 600, "thorough": 1500}[tier]):
         ds = nn.rand_dataset(rng, max_rows=6, max_points=3)
-        k = rng.choice([1, 2, 2, 3, 3])
+        while rng.random() < 0.85 and len(set(ds["labels"])) < 2:    # mostly datasets on which the scores of the units differ
+            ds = nn.rand_dataset(rng, max_rows=6, max_points=3)
+        k = rng.choice([1, 2, 2, 2, 3, 3, 3, 3])
         ncls = len(set(ds["labels"]))
         comps = []
         for _ in range(k):
@@ -35,7 +37,7 @@ def gen(rng, tier):
                           "null_score": rng.randint(-4, 4) / den, "mean_score": rng.randint(-4, 4) / den,
                           "call": rng.randint(-4, 4) / den, "fail": False})
         dup = k >= 2 and rng.random() < 0.2
-        ws = [rng.choice([-3, -2, -1, 1, 2, 3, 0]) / rng.choice([1, 2]) for _ in range(k)]
+        ws = [rng.choice([-3, -2, -1, 1, 2, 3] * 3 + [0]) / rng.choice([1, 2]) for _ in range(k)]
         cases.append({"kind": "k1", "ds": ds, "comps": comps, "dup": dup, "ws": ws, "default_w": rng.random() < 0.15,
                       "seed": rng.randrange(1 << 30)})
     for _ in range({"quick": 24, "search": 40, "thorough": 150}[tier]):
@@ -44,7 +46,7 @@ def gen(rng, tier):
         comps = [[[rng.randint(-6, 6), rng.choice([1, 2, 4])] for _ in range(2 ** n)] for _ in range(k)]
         cases.append({"kind": "bf", "n": n, "comps": comps, "ws": [rng.randint(-3, 3) / rng.choice([1, 2]) for _ in range(k)],
                       "nulls": [rng.randint(-2, 2) for _ in range(k)]})
-    for _ in range({"quick": 6, "search": 6, "thorough": 40}[tier]):
+    for _ in range({"quick": 12, "search": 12, "thorough": 60}[tier]):
         n_units = rng.randint(2, 3)
         rows = rng.randint(2, 4)
         cases.append({"kind": "add", "n_units": n_units,
